@@ -990,6 +990,9 @@ func (e *executor) prepareExprDependencies(
 		)
 	}
 	for _, dependency := range dependencies {
+		if len(dependency) < 2 {
+			return fmt.Errorf("the expression %s refers to the whole data model; refer to the input or to a step", expr.String())
+		}
 		dependencyKind := dependency[1]
 		switch dependencyKind {
 		case WorkflowInputKey:
